@@ -32,6 +32,8 @@ type rGen struct {
 	queue   []string
 	faultsLeft int
 	pendingViol bool
+	hist   [][][2]int64 // per source: every (id, owner) ever sent
+	resend [][][2]int64 // per source: tasks to re-send after a source-stream restart (same ids, same owners)
 }
 
 func newRGen(rng *rand.Rand, focus string) (*rGen, string) {
@@ -42,6 +44,8 @@ func newRGen(rng *rand.Rand, focus string) (*rGen, string) {
 	}
 	g.nextID = make([]int64, g.ns)
 	g.high = make([]int64, g.ns)
+	g.hist = make([][][2]int64, g.ns)
+	g.resend = make([][][2]int64, g.ns)
 	for s := range g.nextID {
 		g.nextID[s] = int64(5 + rng.IntN(20))
 	}
@@ -93,10 +97,34 @@ func (g *rGen) genBatch(w *rWorld, s int) string {
 	if g.anyGated() && n > 1 {
 		n = 1 // a blocked hand-off makes multi-target delivery order (Go map order) observable; see DESIGN
 	}
+	if len(g.resend[s]) > 0 {
+		// after a restart the source re-sends exactly the tasks it had sent before, from its acknowledged level
+		if n == 0 {
+			n = 1
+		}
+		if n > len(g.resend[s]) {
+			n = len(g.resend[s])
+		}
+		for _, tk := range g.resend[s][:n] {
+			tasks = append(tasks, fmt.Sprintf("%d:%d", tk[0], tk[1]))
+		}
+		last := g.resend[s][n-1][0]
+		g.resend[s] = g.resend[s][n:]
+		h := last + 1
+		if len(g.resend[s]) > 0 {
+			h = g.resend[s][0][0]
+		} else if g.nextID[s] > h {
+			h = g.nextID[s]
+		}
+		g.high[s] = h
+		return strings.TrimSpace(fmt.Sprintf("batch %d %d %s", s, h, strings.Join(tasks, " ")))
+	}
 	for i := 0; i < n; i++ {
 		id := g.nextID[s]
 		g.nextID[s] += 1 + int64(rng.IntN(3))
-		tasks = append(tasks, fmt.Sprintf("%d:%d", id, rng.IntN(g.nt)))
+		owner := rng.IntN(g.nt)
+		g.hist[s] = append(g.hist[s], [2]int64{id, int64(owner)})
+		tasks = append(tasks, fmt.Sprintf("%d:%d", id, owner))
 	}
 	h := g.nextID[s]
 	if n > 0 && rng.IntN(2) == 0 {
@@ -278,11 +306,18 @@ func (g *rGen) next(w *rWorld, i int) string {
 					s := rng.IntN(g.ns)
 					if w.srcSrv[s] != nil {
 						g.queue = append(g.queue, fmt.Sprintf("opensrc %d", s))
-						// the source resumes from the level it was last acked
-						if w.srcHasAck[s] && w.srcLastAck[s] > 0 {
-							g.nextID[s] = w.srcLastAck[s]
-							g.high[s] = w.srcLastAck[s]
+						// the source resumes from the level it was last acked: same tasks, same ids
+						level := int64(0)
+						if w.srcHasAck[s] {
+							level = w.srcLastAck[s]
 						}
+						g.resend[s] = nil
+						for _, tk := range g.hist[s] {
+							if tk[0] >= level {
+								g.resend[s] = append(g.resend[s], tk)
+							}
+						}
+						g.high[s] = level
 						return fmt.Sprintf("breaksrc %d", s)
 					}
 				}
@@ -319,9 +354,9 @@ func runRoutingFocus(t *testing.T, focus string) {
 		e.Evals++
 		e.Count("corpus_case")
 	}
-	n := 150
+	n := 600
 	if e.Thorough() {
-		n = 3000
+		n = 15000
 	}
 	for i := 0; i < n; i++ {
 		g, begin := newRGen(e.Rng, focus)
